@@ -13,18 +13,18 @@ type verifFmtCtx struct {
 
 // Literal contexts: the symbolic bytes form (part of) a literal or token sequence.
 var verifFmtCtxs = []verifFmtCtx{
-	{"var x = '", "'", false},                   // single-quoted string
-	{"var x = '''", "'''", false},               // triple-quoted string
-	{"var x = lambda: \"", "\" > 1", false},     // reference
-	{"var x = a|b('", "')", false},              // string argument
-	{"var x = ", "", true},                      // any primary: number, duration, bool, ident, ...
-	{"var x = 1", "", true},                     // number / duration continuation
-	{"var x = lambda: \"a\" ", " \"b\"", false}, // operator between references
-	{"var x = lambda: 1 ", " 2.0", true},        // operator between numbers
-	{"var x = a", "\n", false},                  // chain / property continuation
-	{"// ", "\nvar x = 1", false},               // comment text
-	{"var x = [", "]", true},                    // list
-	{"var x = lambda: f(", ")", true},           // lambda function argument
+	{"var x = '", "'", false},                  // single-quoted string
+	{"var x = '''", "'''", false},              // triple-quoted string
+	{"var x = lambda: \"", "\" > 1", false},    // reference
+	{"var x = a|b('", "')", false},             // string argument
+	{"var x = ", "", true},                     // any primary: number, duration, bool, ident, ...
+	{"var x = 1", "", true},                    // number / duration continuation
+	{"var x = lambda: \"a\" ", " \"b\"", true}, // operator between references
+	{"var x = lambda: 1 ", " 2.0", true},       // operator between numbers
+	{"var x = a", "\n", true},                  // chain / property continuation
+	{"// ", "\nvar x = 1", false},              // comment text
+	{"var x = [", "]", true},                   // list
+	{"var x = lambda: f(", ")", true},          // lambda function argument
 }
 
 // verifRoundTrip asserts the C13 obligations for one script text that parses.
@@ -63,21 +63,43 @@ func VerifC13Literal(v *vrt.T) {
 	s := v.String("s", n)
 	if c.noFloat {
 		// float literals with symbolic digits would need strconv's shortest-float formatting
-		// of a symbolic value (Ryu: 128-bit multiplications) — outside the claim
+		// of a symbolic value (Ryu: 128-bit multiplications) — outside the claim: no '.'
+		// next to a digit (the digit may be symbolic or the end of the prefix / start of the suffix)
 		for i := 0; i < len(s); i++ {
-			v.Assume(s[i] != '.')
+			prevDigit := (i > 0 && s[i-1] >= '0' && s[i-1] <= '9') || (i == 0 && len(c.prefix) > 0 && c.prefix[len(c.prefix)-1] >= '0' && c.prefix[len(c.prefix)-1] <= '9')
+			nextDigit := (i+1 < len(s) && s[i+1] >= '0' && s[i+1] <= '9') || (i+1 == len(s) && len(c.suffix) > 0 && c.suffix[0] >= '0' && c.suffix[0] <= '9')
+			v.Assume(!(s[i] == '.' && (prevDigit || nextDigit)))
 		}
 	}
 	verifRoundTrip(v, c.prefix+s+c.suffix)
 }
 
-// VerifC13Precedence: two binary operators given as arbitrary bytes (3 each, spaces allowed),
-// with every parenthesisation: the re-parsed formatted expression is the same tree.
+// VerifC13Precedence: two binary operators, the first given as arbitrary bytes over the
+// operator alphabet (white space allowed), with every parenthesisation: the re-parsed
+// formatted expression is the same tree.
 func VerifC13Precedence(v *vrt.T) {
 	shape := v.Choose("parens", 4)
-	op1, op2 := v.String("op1", 3), v.String("op2", 3)
+	nb := v.Bound("opbytes", 2)
+	op1 := v.String("op1", nb)
+	alphabet := v.Bound("opalphabet", 1) == 1
+	for i := 0; alphabet && i < len(op1); i++ {
+		// operator characters, the letters of AND/OR and white space (identifiers, numbers and
+		// strings in operator position are mostly parse errors, also explored by Literal)
+		v.Assume(verifIsOpByte(op1[i]))
+	}
+	var op2 string
+	if v.Bound("op2sym", 0) == 1 {
+		op2 = v.String("op2", nb)
+		for i := 0; i < len(op2); i++ {
+			v.Assume(verifIsOpByte(op2[i]))
+		}
+	} else {
+		// one representative per precedence class
+		reps := []string{"OR", "==", "+", "*", "AND", "<", "-", "%"}
+		op2 = reps[v.Choose("op2", v.Bound("op2reps", 4))]
+	}
 	a, b, c := "\"a\"", "\"b\"", "\"c\""
-	if v.Choose("unary", 2) == 1 {
+	if v.Bound("unary", 0) == 1 && v.Choose("unary", 2) == 1 {
 		a = "-\"a\""
 	}
 	var text string
@@ -92,6 +114,14 @@ func VerifC13Precedence(v *vrt.T) {
 		text = "(" + a + " " + op1 + " (" + b + " " + op2 + " " + c + "))"
 	}
 	verifRoundTrip(v, "var x = lambda: "+text)
+}
+
+func verifIsOpByte(b byte) bool {
+	switch b {
+	case '+', '-', '*', '/', '%', '=', '!', '<', '>', '~', 'A', 'N', 'D', 'O', 'R', ' ', '\t', '\n':
+		return true
+	}
+	return false
 }
 
 // VerifC13Duration: a duration node without source literal (built by code: JSON ASTs,
